@@ -17,6 +17,7 @@ CONSTANTS N,        \* peers 1..N (rank = id), 0 is the local node
           MaxOps    \* bound on the history length (0 = none)
 
 Peers == 1..N
+AllLies == SUBSET (0..N)        \* a liar may return any set of peers, the local node included
 C == [kind |-> Kind, alpha |-> Alpha, repl |-> Repl, need |-> Need, localrec |-> LocalRec,
       known |-> Known, init |-> InitC]
 
